@@ -67,8 +67,15 @@ func verifC18Backend(kind int) {
 	expired := stored && es[ki] != 0 && es[ki] < now
 	ctx := context.Background()
 	m := func(name string) float64 { return st.add[name+"|name=inst"] }
-	op := verifChoice("op", 6)
+	op := verifChoice("op", 7)
 	switch op {
+	case 6:
+		// a janitor cleanup cycle: whatever it removes (entries expired longer than DeleteExpiredAfter) is
+		// neither a hit/miss/expired read nor a Delete: none of the accounted event counters moves
+		b.cleanup()
+		verifReach("cleanup cycle")
+		verifAssert("a cleanup cycle emits none of the accounted events",
+			m(MetricDelete) == 0 && m(MetricHit) == 0 && m(MetricMiss) == 0 && m(MetricExpired) == 0 && m(MetricWrite) == 0)
 	case 0:
 		skip := verifBool("skipRead")
 		if skip {
